@@ -48,6 +48,8 @@ func (o c10Op) String() string {
 		return fmt.Sprintf("root(%s)", []string{"NewContext", "NewContextWith({})", "NewContextWith({a:1})", "NewContextWith({len:1})", "NewContextWith({len:nil})", "NewContextWithContext(WithValue(a,2))", "NewContextWithContext(WithValue(b,1),WithValue(len,1))"}[o.i])
 	case "new":
 		return fmt.Sprintf("c%d.New()", o.i)
+	case "wrap":
+		return fmt.Sprintf("NewContextWithContext(c%d)", o.i)
 	}
 	return fmt.Sprintf("c%d.Set(%s,%s)", o.i, c10Keys[o.k], c10ValNames[o.v])
 }
@@ -116,6 +118,11 @@ func (m *c10Model) apply(o c10Op) {
 		if !m.bound(n, 2) { // the user's binding, also to nil, wins in all descendants
 			m.ctxs[n].vars[2] = c10Builtin
 		}
+	case "wrap":
+		// a fresh root whose wrapped Go context is ci: ci's chain is asked last; built-in helpers are injected
+		// (the new root has no data of its own)
+		m.ctxs = append(m.ctxs, c10Ctx{parent: o.i})
+		m.ctxs[len(m.ctxs)-1].vars[2] = c10Builtin
 	case "set":
 		m.ctxs[o.i].vars[o.k] = o.v
 	}
@@ -156,6 +163,8 @@ func (im *c10Impl) apply(o c10Op) {
 		}
 	case "new":
 		im.ctxs = append(im.ctxs, im.ctxs[o.i].New().(*plush.Context))
+	case "wrap":
+		im.ctxs = append(im.ctxs, plush.NewContextWithContext(im.ctxs[o.i]))
 	case "set":
 		var v interface{}
 		switch o.v {
@@ -277,7 +286,7 @@ func init() {
 			return s
 		},
 		Run:  c10Run,
-		Rule: "explicit-state breadth-first search over histories of {root constructor in 7 variants (NewContext, NewContextWith {} / {a:1} / {len:1} / {len:nil}, NewContextWithContext over a Go context that answers a / b and len - asked last, after every scope), ci.New() (<=4 contexts alive), ci.Set(k,v) with k in {a,b,len(built-in helper name)} (two roots also with the key names {contentFor:x, empty string, len}, one operation shallower) and v in {1,2,nil}}; every transition calls the real API (successor = shortest history replayed on fresh objects + one operation); states are deduplicated on the reference model's state (parent vector + bindings, contexts numbered in creation order); every history is run twice - as is, and with every context and key read (Value and Has) just before its last operation, since reads are operations of the history too; in EVERY state the complete observation vector (Value and Has of every context x key) of the implementation is compared with the model (nearest binding wins, a binding to nil is a binding, Has = value != nil, built-in helper injected at construction only under a name that is not bound - to anything, nil included - along the chain, so that a user's binding of a helper name wins in that context and all descendants, whenever they are created). (deep) linear chains of 2..9 contexts, every pair of Set operations anywhere on the chain, with and without one more New at the bottom in between. Non-trivial: histories with >=2 contexts or a nil/len binding.",
+		Rule: "explicit-state breadth-first search over histories of {root constructor in 7 variants (NewContext, NewContextWith {} / {a:1} / {len:1} / {len:nil}, NewContextWithContext over a Go context that answers a / b and len - asked last, after every scope), ci.New() (<=4 contexts alive), ci.Set(k,v) with k in {a,b,len(built-in helper name)} (two roots also with the key names {contentFor:x, empty string, len}, one operation shallower) and v in {1,2,nil}}; every transition calls the real API (successor = shortest history replayed on fresh objects + one operation); states are deduplicated on the reference model's state (parent vector + bindings, contexts numbered in creation order); every history is run twice - as is, and with every context and key read (Value and Has) just before its last operation, since reads are operations of the history too; in EVERY state the complete observation vector (Value and Has of every context x key) of the implementation is compared with the model (nearest binding wins, a binding to nil is a binding, Has = value != nil, built-in helper injected at construction only under a name that is not bound - to anything, nil included - along the chain, so that a user's binding of a helper name wins in that context and all descendants, whenever they are created). (deep) a plush context wrapped by NewContextWithContext (7 shapes of wrap / New over 3 roots, one optional Set on the root first, then every pair of Set operations): the result is a context of its own that falls back to the wrapped one; linear chains of 2..9 contexts, every pair of Set operations anywhere on the chain, with and without one more New at the bottom in between. Non-trivial: histories with >=2 contexts or a nil/len binding.",
 		Bound: func(th bool) string {
 			if th {
 				return "histories of <=8 operations after the root constructor, <=4 contexts"
@@ -364,6 +373,49 @@ func c10Run(t *engine.T, shard string) {
 // sequence of two Set operations anywhere on it - before and after one more New at the bottom - against the model.
 func c10Deep(t *engine.T) {
 	c10Keys = c10KeySets["std"]
+	// a plush context handed to NewContextWithContext is wrapped like any Go context: the result is a context of its
+	// own (what is Set on it stays there), which falls back to the wrapped one
+	for _, r := range []int{0, 2, 5} {
+		for si, shape := range [][]c10Op{
+			{{"wrap", 0, 0, 0}}, {{"new", 0, 0, 0}, {"wrap", 1, 0, 0}}, {{"wrap", 0, 0, 0}, {"new", 1, 0, 0}}, {{"wrap", 0, 0, 0}, {"wrap", 1, 0, 0}},
+			{{"new", 0, 0, 0}, {"wrap", 0, 0, 0}}, {{"wrap", 0, 0, 0}, {"wrap", 0, 0, 0}}, {{"new", 0, 0, 0}, {"wrap", 1, 0, 0}, {"new", 2, 0, 0}},
+		} {
+			base := append([]c10Op{{"root", r, 0, 0}}, shape...)
+			n := len(shape) + 1
+			var sets []c10Op
+			for i := 0; i < n; i++ {
+				for _, k := range []int{0, 2} {
+					for _, v := range []int{c10One, c10Two, c10Nil} {
+						sets = append(sets, c10Op{"set", i, k, v})
+					}
+				}
+			}
+			for _, pre := range append([]c10Op{{"", 0, 0, 0}}, sets...) {
+				for _, s1 := range sets {
+					for _, s2 := range sets {
+						var h []c10Op
+						if pre.kind != "" {
+							// one Set before the contexts are derived
+							if pre.i != 0 {
+								continue
+							}
+							h = append(h, base[0], pre)
+							h = append(h, base[1:]...)
+						} else {
+							h = append(h, base...)
+						}
+						h = append(h, s1, s2)
+						hh := h
+						t.Edge(1)
+						t.Case(fmt.Sprintf("wrap shape=%d %s", si, c10HistString(hh)), true, func() (string, *engine.Fail) {
+							c, _, f := c10Check(hh)
+							return c, f
+						})
+					}
+				}
+			}
+		}
+	}
 	for depth := 2; depth <= 9; depth++ {
 		chain := []c10Op{{"root", 0, 0, 0}}
 		for i := 0; i < depth-1; i++ {
